@@ -15,7 +15,7 @@ CHECKS = {
     note=TB + "; libc routines are assumed reentrant except the listed MT-unsafe set; tmpfile_s's documented call counter is a recorded known finding"),
  "C09": dict(
     engine="derive",
-    technique="call-graph format-flow classification of all 28 printf/scanf entry points; va_list load-depth pointer derivation in the formatter; path-sensitive decision of which outcomes of the \"%n\" search reach the libc call; filter-language vs libc-directive-grammar intersection by enumeration",
+    technique="call-graph format-flow classification of all 28 printf/scanf entry points; va_list load-depth pointer derivation in the formatter; path-sensitive decision of which outcomes of the \"%n\" search reach the libc call; filter-language vs libc-directive-grammar intersection by enumeration; width check of the look-behind comparison (no truncation between the loaded element and the comparison with 37)",
     category="other",
     text="For every format string at once: (E) in the library's own formatter no store or writing effect can go through a caller-supplied variadic pointer on any path (exact over the IR), and the 'n' arm only fails; (D) for entry points that delegate to libc, the code inspecting the format is classified by shape and what its guard lets through is decided on all paths (search outcome: not found / at offset 0 / behind '%' / behind another character); the accepted language is intersected with libc's %n-executing language, yielding a concrete accepted format when the filter is unsound. A library bounded searcher used as the filter must be bounded by a length measured from the format itself (not by dmax). A filter that cannot be classified makes the check answer analysis-broken (exit 2), never a violation and never a pass.",
     design_ref="DESIGN.md §4 C09",
@@ -113,9 +113,9 @@ CHECKS = {
     note=TB + "; functions in tables/cap_reach.json (4 clearing writes: strnset_s, wcsnset_s, wcsfc_s, wcsnorm_compose_s) are not analysed"),
  "C17": dict(
     engine="capcheck",
-    technique="bounded-index obligations on the plane-table loads (cp >> 16 into 17-entry arrays), discharged inside the lookup helper or turned into a precondition that every call site must entail, followed through private helpers to the exported entry points; interval-partition abstract interpretation of iswfc's comparison tree against the constant folding tables read by towfc_s; reader/table agreement of the generated normalisation tables (pointer and integer tables exported from the IR; interval-set reachability for the layout selector; constant folding of the reader's decode arithmetic over all stored values; composition/decomposition inverse check)",
+    technique="bounded-index obligations on the plane-table loads (cp >> 16 into 17-entry arrays), discharged inside the lookup helper or turned into a precondition that every call site must entail, followed through private helpers to the exported entry points; interval-partition abstract interpretation of iswfc's comparison tree against the constant folding tables read by towfc_s; reader/table agreement of the generated normalisation tables (pointer and integer tables exported from the IR; interval-set reachability for the layout selector; constant folding of the reader's decode arithmetic over all stored values; composition/decomposition inverse check); decision-table extraction of the algorithmic Hangul composition (interval x residue-class partition of the two code points, followed through file-local helpers) compared with the two rows of UAX #15 3.12",
     category="other",
-    text="Decides the clause 'code points above U+10FFFF are rejected rather than used as table indices' for every input string: each plane-table access is bounded where it happens or at all call sites of its helper. The iswfc/towfc_s agreement is decided for the multi-character foldings: iswfc touches its argument only through comparisons with constants, so its decision tree is evaluated exactly over the interval partition those constants induce; the code points it announces as 2 resp. 3 characters are exactly the key columns of towfc_s's 2- resp. 3-character tables (88 and 16 entries), the tables are strictly ascending and zero-terminated (the search stops at the first larger key), and a hit stores k+1 elements and returns k. Table agreement of the normalisation tables, exhaustive over every table entry: (L) each of the 442 composition lists is walked with the element size it is stored in (the 16-/32-bit layout selector, decided by interval-set reachability over the reader's comparisons), is reachable, strictly ascending and zero-terminated; (K) the searched code point is not truncated before the key comparison; (D) every packed (length, index) value stored in the three-level canonical decomposition table decodes, with the reader's own shifts, masks and address arithmetic constant-folded over the table contents, to exactly one row of an existing value table, the returned length is the row width, and every row is referenced; (I) the composition lists are the inverse of the stored decompositions (1022 pairs). Rejection (R): in the four entry points that take characters from a caller's string every element handed to a code-point consumer was range-checked against U+10FFFF in the entry point itself (interval-set reachability of the decoded value at the call). The reorder/compose algorithm itself (blocking, combining classes), Hangul arithmetic, the identity of the tables with the UCD, and the single-character folding cases (libc iswupper/towlower) are not decided.",
+    text="Decides the clause 'code points above U+10FFFF are rejected rather than used as table indices' for every input string: each plane-table access is bounded where it happens or at all call sites of its helper. The iswfc/towfc_s agreement is decided for the multi-character foldings: iswfc touches its argument only through comparisons with constants, so its decision tree is evaluated exactly over the interval partition those constants induce; the code points it announces as 2 resp. 3 characters are exactly the key columns of towfc_s's 2- resp. 3-character tables (88 and 16 entries), the tables are strictly ascending and zero-terminated (the search stops at the first larger key), and a hit stores k+1 elements and returns k. Table agreement of the normalisation tables, exhaustive over every table entry: (L) each of the 442 composition lists is walked with the element size it is stored in (the 16-/32-bit layout selector, decided by interval-set reachability over the reader's comparisons), is reachable, strictly ascending and zero-terminated; (K) the searched code point is not truncated before the key comparison; (D) every packed (length, index) value stored in the three-level canonical decomposition table decodes, with the reader's own shifts, masks and address arithmetic constant-folded over the table contents, to exactly one row of an existing value table, the returned length is the row width, and every row is referenced; (I) the composition lists are the inverse of the stored decompositions (1022 pairs). Rejection (R): in the four entry points that take characters from a caller's string every element handed to a code-point consumer was range-checked against U+10FFFF in the entry point itself (interval-set reachability of the decoded value at the call). The reorder/compose algorithm itself (blocking, combining classes), Hangul arithmetic, the identity of the tables with the UCD, and the single-character folding cases (libc iswupper/towlower) are not decided. The arithmetic part of the pair composition is a finite decision table over (interval of cp) x (residue of cp - SBase modulo 28) x (interval of cp2); it is enumerated path by path and must be exactly UAX #15's L x V and LV x T rows (domain and expression), both covered completely.",
     design_ref="DESIGN.md §3.2, §4 C17",
     note=TB + "; 32-bit wchar_t configuration; three fix: commits in /repo (two crashes on out-of-range code points; second code point truncated to 16 bits before the composition-list comparison; reorder/compose/wcsfc_s did not reject out-of-range code points); one known finding (U+037E stored as the reserved value 0: not decomposed; the repair contradicts an expectation pinned in the unedited test suite)"),
  "C06": dict(
